@@ -25,6 +25,8 @@
 #include <cstring>
 #include <sys/wait.h>
 #include <unistd.h>
+#include <thread>
+#include <atomic>
 
 using namespace icinga;
 
@@ -727,6 +729,135 @@ VOP(ps_kill) { Injected(a, "kill", "signal=KILL"); }
 // ps_fault what=... call=<syscall> n=<k> err=<ERRNO> : the k-th <call> of the write window fails with <ERRNO> (disk full,
 // I/O error, quota ...); the process goes on; the file must be the complete old or the complete new version
 VOP(ps_fault) { Injected(a, "fault", "error=" + a.str("err", "ENOSPC"), true); }
+
+// ------------------------------------------------------------------ (iv) the final dump at shutdown next to a periodic dump
+// IcingaApplication::DumpProgramState() is called by the retention timer's callback (a pool thread) and by OnShutdown()
+// (main thread; it stops the timer without waiting for a running callback).  Directed two-thread schedules WITHOUT any
+// hook in the code under test: a dump is held inside its serialisation by an ObjectLock on a host it must serialise
+// (SerializeObject locks every object; the lock is recursive, so the thread that owns it passes).
+//   ps_dumpstate                       one complete DumpProgramState ("the previous periodic dump")
+//   ps_shutdown sched=parked val=<v> state=<k>
+//        periodic dump started on a second thread and held at host 0 (temp file created);  change: notes of host 0 := v,
+//        a check result with state k on every host;  the shutdown dump on the MAIN thread;  [observation: files on disk];
+//        the periodic dump is released and runs to its end.
+//   ps_shutdown sched=late val=<v> state=<k>
+//        change;  the shutdown dump (thread X) held at host 0 with its temp file created;  a periodic dump (thread Y) begins:
+//        clean-up of <file>.tmp.*, own temp file;  both released;  [observation when X's dump has returned or thrown, while
+//        Y is still held (X owns the lock of the last host until it has observed)].
+// Observation = the two files as they are when the shutdown dump has returned (what the next start finds if the process
+// exits now): did the dump throw; are the files byte-identical to those before (stale).  Unless it threw: fresh
+// objects from the same configuration, RestoreObjects + evaluation of modified-attributes.conf FROM THOSE FILES, compared.
+VOP(ps_dumpstate)
+{
+	bool threw = false;
+	try { IcingaApplication::GetInstance()->DumpProgramState(); } catch (const std::exception&) { threw = true; }
+	Out(std::string("dumpstate") + (threw ? " threw" : ""));
+}
+
+static std::vector<std::string> PsTempFiles(const std::string& fin)
+{
+	std::vector<std::string> r;
+	try { Utility::Glob(fin + ".tmp.*", [&r](const String& p) { r.push_back(p.GetData()); }, GlobFile); } catch (...) {}
+	return r;
+}
+
+template<typename F> static bool PsWaitFor(F cond, int ms = 5000)
+{
+	for (int i = 0; i < ms * 2; i++) { if (cond()) return true; usleep(500); }
+	return false;
+}
+
+VOP(ps_shutdown)
+{
+	std::string sched = a.str("sched", "parked");
+	IcingaApplication::Ptr app = IcingaApplication::GetInstance();
+	std::string sp = Configuration::StatePath.GetData(), mp = Configuration::ModAttrPath.GetData();
+	bool e1 = false, e2 = false;
+	std::string oldS = ReadFile(sp, e1), oldM = ReadFile(mp, e2);
+	std::string snapS, snapM;
+	bool snapSe = false, snapMe = false, threw = false, pto = false;
+	std::vector<Dictionary::Ptr> bh;
+	std::string modLine;
+	auto change = [&]() {
+		bool mok = true;
+		try { l_Hs.at(0)->ModifyAttribute("notes", ParseVal(a.str("val", "S78"))); } catch (const std::exception&) { mok = false; }
+		modLine = MState("mod", mok, 0);
+		double now = Utility::GetTime();
+		for (size_t i = 0; i < l_Hs.size(); i++) {
+			CheckResult::Ptr cr = new CheckResult();
+			cr->SetState((ServiceState)((i + a.num("state", 2)) % 4));
+			cr->SetScheduleStart(now); cr->SetScheduleEnd(now); cr->SetExecutionStart(now); cr->SetExecutionEnd(now);
+			cr->SetOutput("shutdown-" + std::to_string(i) + "-" + a.str("val", "S78"));
+			l_Hs[i]->ProcessCheckResult(cr);
+		}
+		for (const Host::Ptr& h : l_Hs) bh.push_back(Serialize(h, FAState));
+	};
+	auto observe = [&]() { snapS = ReadFile(sp, snapSe); snapM = ReadFile(mp, snapMe); };
+	if (sched == "parked") {
+		std::atomic<bool> done{false};
+		std::thread y;
+		{
+			ObjectLock lockA(l_Hs.at(0));
+			y = std::thread([&]() { try { app->DumpProgramState(); } catch (const std::exception&) {} done = true; });
+			if (!PsWaitFor([&]() { return !PsTempFiles(sp).empty() || done.load(); })) pto = true;
+			usleep(30000);                                   // the few objects in front of host 0 are serialised by now
+			change();
+			try { app->DumpProgramState(); } catch (const std::exception&) { threw = true; }         // OnShutdown's dump, main thread
+			observe();
+		}
+		y.join();
+	} else if (sched == "late") {
+		change();
+		std::atomic<bool> xdone{false}, ydone{false};
+		std::thread x, y;
+		{
+			ObjectLock lockA(l_Hs.at(0));
+			x = std::thread([&]() {
+				ObjectLock lockB(l_Hs.back());                 // keeps the other dump inside its serialisation until X has observed
+				try { app->DumpProgramState(); } catch (const std::exception&) { threw = true; }
+				observe();
+				xdone = true;
+			});
+			std::vector<std::string> xt;
+			if (!PsWaitFor([&]() { xt = PsTempFiles(sp); return !xt.empty() || xdone.load(); })) pto = true;
+			usleep(30000);
+			y = std::thread([&]() { try { app->DumpProgramState(); } catch (const std::exception&) {} ydone = true; });
+			if (!PsWaitFor([&]() { for (auto& t : PsTempFiles(sp)) if (xt.empty() || t != xt[0]) return true; return ydone.load(); })) pto = true;
+			usleep(30000);
+		}
+		x.join(); y.join();
+	} else {
+		change();
+		try { app->DumpProgramState(); } catch (const std::exception&) { threw = true; }
+		observe();
+	}
+	bool stale = (snapSe == e1 && snapS == oldS) || (snapMe == e2 && snapM == oldM);
+	Out(modLine);
+	Out(std::string("shut threw=") + (threw ? "1" : "0") + " stale=" + (stale ? "1" : "0") + (pto ? " pto=1" : ""));
+	if (sched == "late") return;
+	// the disk as it was when the shutdown dump returned
+	{ std::ofstream f(sp, std::ios::binary | std::ios::trunc); f << snapS; }
+	{ std::ofstream f(mp, std::ios::binary | std::ios::trunc); f << snapM; }
+	auto txt = ModAttrDigests();
+	RemoveAll();
+	Create();
+	std::vector<Dictionary::Ptr> fh, ah;
+	for (const Host::Ptr& h : l_Hs) fh.push_back(Serialize(h, FAState));
+	bool rthrew = false;
+	try { ConfigObject::RestoreObjects(sp); } catch (const std::exception&) { rthrew = true; }
+	bool ok = !rthrew && ReplayModAttrs();
+	for (size_t i = 0; i < l_N; i++) Out(MState("rst", ok, i) + TxtOf(txt, i));
+	for (const Host::Ptr& h : l_Hs) ah.push_back(Serialize(h, FAState));
+	std::vector<std::string> diff;
+	for (size_t i = 0; i < l_Hs.size() && i < bh.size(); i++) {
+		std::vector<std::string> d;
+		Diff("h" + std::to_string(i) + ".", bh[i], ah[i], d);
+		diff.insert(diff.end(), d.begin(), d.end());
+	}
+	std::string d;
+	for (auto& x : diff) { if (!d.empty()) d += ","; d += x; }
+	Out(std::string("st all=") + (diff.empty() ? "1" : "0") + " diff=" + (d.empty() ? "-" : d));
+}
 
 static struct PsCaseEnd {
 	PsCaseEnd() {
